@@ -15,6 +15,8 @@ with C.Lock():
     import k3check
     ok4, msgs4 = k3check.regen_memorder()
     print("\n".join(msgs4))
+    ok5, msgs5 = k3check.regen_sync()
+    print("\n".join(msgs5))
     ok2, out, errors, dt = C.lake_build(["Cuckoo", "cuckoo-driver"])
     print("lake build: %s in %.0fs" % ("ok" if ok2 else "FAILED", dt))
     if not ok2:
